@@ -1,0 +1,42 @@
+//go:build verif
+
+package biscuit
+
+import "github.com/biscuit-auth/biscuit-go/v2/datalog"
+
+// Read-only accessors for the /verif conformance harness. This file only exists for the
+// compiler when the "verif" build tag is set; it adds no behaviour and changes no state.
+
+// VerifAuthorizerState exposes the Datalog worlds an authorizer holds: the authority-level
+// world, its symbol table, the per-block worlds of the last Authorize calls and the base world.
+func VerifAuthorizerState(a Authorizer) (world *datalog.World, symbols *datalog.SymbolTable, blockWorlds []*datalog.World, baseWorld *datalog.World) {
+	v, ok := a.(*authorizer)
+	if !ok {
+		return nil, nil, nil, nil
+	}
+	return v.world, v.symbols, v.block_worlds, v.baseWorld
+}
+
+// VerifTokenSymbols returns the token's cumulative symbol table (not a copy).
+func VerifTokenSymbols(b *Biscuit) *datalog.SymbolTable { return b.symbols }
+
+// VerifSymbolsLenCap reports length and capacity of the token's cumulative symbol table.
+func VerifSymbolsLenCap(b *Biscuit) (int, int) { return len(*b.symbols), cap(*b.symbols) }
+
+// VerifBlockBuffers reports length and capacity of every stored signed block buffer
+// (authority first), i.e. whether appending to it in place would write shared memory.
+func VerifBlockBuffers(b *Biscuit) (lens []int, caps []int) {
+	lens = append(lens, len(b.container.Authority.Block))
+	caps = append(caps, cap(b.container.Authority.Block))
+	for _, sb := range b.container.Blocks {
+		lens = append(lens, len(sb.Block))
+		caps = append(caps, cap(sb.Block))
+	}
+	return lens, caps
+}
+
+// VerifBlockString prints a built block with the given symbol table.
+func VerifBlockString(b *Block, symbols *datalog.SymbolTable) string { return b.String(symbols) }
+
+// VerifBlockSymbols returns the symbols a built block declares.
+func VerifBlockSymbols(b *Block) []string { return append([]string{}, (*b.symbols)...) }
